@@ -243,6 +243,12 @@ impl<SVC: Service> CloudServer<SVC> {
 
     /// Perform cleanup, deleting unnecessary data.
     async fn cleanup(&mut self) -> Result<()> {
+        // Read "latest" before listing the versions: every version up to this one was uploaded
+        // before its compare-and-swap, hence before the listing starts, so the chain walked
+        // back from it is complete. Versions added after this point are not on that chain, and
+        // the rules below leave them alone.
+        let latest = self.get_latest().await?;
+
         // Construct a vector containing all (child, parent, creation) tuples
         let mut versions = {
             let mut versions = Vec::new();
@@ -272,7 +278,6 @@ impl<SVC: Service> CloudServer<SVC> {
         // at "latest".
         let mut rev_chain = HashMap::new();
         let mut iterations = versions.len() + 1; // For cycle detection.
-        let latest = self.get_latest().await?;
         if let Some(mut c) = latest {
             while let Some(p) = parent_of(c) {
                 rev_chain.insert(c, p);
@@ -309,11 +314,13 @@ impl<SVC: Service> CloudServer<SVC> {
             })
             .collect();
 
-        // Now, any pair not present in that chain can be deleted. However, another replica
-        // may be in the state where it has uploaded a version but not changed "latest" yet,
-        // so any pair with parent equal to latest is allowed to stay.
+        // Now, a pair not present in that chain can be deleted if its parent has another child
+        // on the chain: it lost the compare-and-swap for good. Any other pair may belong to a
+        // replica that has uploaded a version but not changed "latest" yet, or to a version
+        // added since "latest" was read, and is allowed to stay.
+        let onchain_parents: HashSet<Uuid> = rev_chain.values().copied().collect();
         for (c, p, _) in versions {
-            if rev_chain.get(&c) != Some(&p) && Some(p) != latest {
+            if rev_chain.get(&c) != Some(&p) && onchain_parents.contains(&p) {
                 self.service.del(&Self::version_name(&p, &c)).await?;
             }
         }
